@@ -27,17 +27,18 @@ local notation "⟪" ops "⟫" => run ops St.init
 
 /-! ## C02 — `reduction`, `update_predecessors`, comparisons of managers -/
 
-/-- C02 / C11 (`BDD.reduction()`): from a manager in a good state (every reachable state) whose
-`roots` are nodes, for every iteration order of `_succ`, the call returns normally and leaves
-`self` as it was; the new manager has the same variable order, is in a good state for an empty
+/-- C02 / C11 (`BDD.reduction()`): from a manager that satisfies the invariant and whose order is
+a bijection (every reachable state; dynamic reordering of `self` enabled OR NOT, inside a
+reordering context or not) and whose `roots` are nodes, for every iteration order of `_succ`, the
+call returns normally and leaves `self` as it was; the new manager has the same variable order, is in a good state for an empty
 ledger (canonical, counts exact, empty computed table, reordering not enabled), and every
 reference `u` of the source has a translation `tr u` in it with `tr (-u) = - tr u`, the same
 function by level and by name, distinct for distinct references; its `roots` are the translated
 roots. -/
-theorem C02_reduction (m : Mgr) (ext : Nat → Nat) (h : GoodState m ext)
+theorem C02_reduction (m : Mgr) (hI : Inv m) (hO : OrderOK m.tbl)
     (hroots : ∀ v ∈ m.roots, m.tbl.Mem v) (ord : List Nat) (ho : SuccOrder m.tbl ord) :
     ∃ b tr, reduction ord m = (.ok b, m) ∧ ReductionPost m.tbl m.roots b tr :=
-  reduction_spec m h.inv h.order hroots ord ho
+  reduction_spec m hI hO hroots ord ho
 
 /-- after any history -/
 theorem C02_reduction_every_history (ops : List UOp) (hg : OpsGuarded ops St.init)
@@ -45,14 +46,14 @@ theorem C02_reduction_every_history (ops : List UOp) (hg : OpsGuarded ops St.ini
     (ho : SuccOrder ⟪ops⟫.m.tbl ord) :
     ∃ b tr, reduction ord ⟪ops⟫.m = (.ok b, ⟪ops⟫.m) ∧
       ReductionPost ⟪ops⟫.m.tbl ⟪ops⟫.m.roots b tr :=
-  C02_reduction _ _ (reachable_inv ops hg) hroots ord ho
+  C02_reduction _ (reachable_inv ops hg).inv (reachable_inv ops hg).order hroots ord ho
 
 /-- a root that is not a node: `KeyError`, `self` unchanged -/
-theorem C02_reduction_bad_root (m : Mgr) (ext : Nat → Nat) (h : GoodState m ext) (ord : List Nat)
+theorem C02_reduction_bad_root (m : Mgr) (hI : Inv m) (hO : OrderOK m.tbl) (ord : List Nat)
     (ho : SuccOrder m.tbl ord) (v : Int) (hv : v ∈ m.roots) (hnm : ¬ m.tbl.Mem v)
     (hothers : ∀ w ∈ m.roots, w ≠ v → m.tbl.Mem w) :
     reduction ord m = (.error .key, m) :=
-  reduction_bad_root m h.inv h.order ord ho v hv hnm hothers
+  reduction_bad_root m hI hO ord ho v hv hnm hothers
 
 /-- C02 (`update_predecessors()`), any iteration order: only `_pred` changes; afterwards the
 triple of every stored node is mapped to that node, other keys keep their entry; and in a manager
@@ -165,7 +166,12 @@ theorem apiExM_roots : ∀ v ∈ apiExM.roots, apiExM.tbl.Mem v := by
   have : apiExM.roots = [] := by decide
   intro v hv; rw [this] at hv; cases hv
 
-example := C02_reduction apiExM _ apiExM_good apiExM_roots [1, 4, 2, 3] apiExM_order
+example := C02_reduction apiExM apiExM_good.inv apiExM_good.order apiExM_roots [1, 4, 2, 3] apiExM_order
+/-- … and with dynamic reordering ENABLED in the source -/
+example := C02_reduction { apiExM with lastLen := some 1 }
+  ⟨apiExM_good.inv.wf, apiExM_good.inv.pred, apiExM_good.inv.freeGe, apiExM_good.inv.free,
+    apiExM_good.inv.refOne, apiExM_good.inv.refDom, apiExM_good.inv.cache⟩ apiExM_good.order apiExM_roots
+  [1, 4, 2, 3] apiExM_order
 /-- the model really builds the three nodes, in the order the listing dictates -/
 example : ((reduction [1, 4, 2, 3] apiExM).1.toOption.map fun b => b.tbl.succ.toList.map
     fun (u, n) => (u, n.lvl, n.lo, n.hi)) = some [(2, 1, -1, 1), (3, 0, -1, 2), (4, 0, -1, 1)] := by
